@@ -22,10 +22,10 @@ structure PSB (pc : PCfg) (s : PSt) : Prop where
 
 /-! ### the rank argument for forced completions -/
 
-theorem rankP_advance {c : Cfg} {L : Nat} {t s : PSt} (htok : Item.ok c L t.item)
+theorem rankP_advance {c : Cfg} {L : Nat} {t s : PSt} (cs : Bool) (htok : Item.ok c L t.item)
     (hsok : Item.ok c t.item.origin s.item) (hcy : (t.item.lhs, t.fin) ∉ t.cov) :
-    lrP c L t < lrP c L (advanceP .acyclic L t s)
-      ∧ (t.item.origin = L → lrP c L s < lrP c L (advanceP .acyclic L t s)) := by
+    lrP c L t < lrP c L (advanceP cs .acyclic L t s)
+      ∧ (t.item.origin = L → lrP c L s < lrP c L (advanceP cs .acyclic L t s)) := by
   have hdt : t.item.dot < DD c + 1 := by have := ok_dot_le htok; omega
   have htk : t.item.origin ≤ L := htok.2.2
   have hso : s.item.origin ≤ t.item.origin := hsok.2.2
@@ -53,18 +53,18 @@ theorem rankP_advance {c : Cfg} {L : Nat} {t s : PSt} (htok : Item.ok c L t.item
       omega
 
 /-- a forced completion keeps the property of the states of the last column -/
-theorem advanceP_psb {pc : PCfg} {t s : PSt} (ht : PSB pc t) (hcut : cutP .acyclic t = false)
+theorem advanceP_psb {pc : PCfg} {t s : PSt} (cs : Bool) (ht : PSB pc t) (hcut : cutP .acyclic t = false)
     (hsok : Item.ok pc.c t.item.origin s.item) (hdot : s.item.dotNT? = some t.item.lhs)
     (hskid : if t.item.origin = pc.L then s.kids ∈ KB pc (lrP pc.c pc.L s) else s.kids ∈ atoms pc) :
-    PSB pc (advanceP .acyclic pc.L t s) := by
+    PSB pc (advanceP cs .acyclic pc.L t s) := by
   have htok := ht.ok
   obtain ⟨a, r, hsym⟩ := dotNT?_sym?' hdot
   have hcy : (t.item.lhs, t.fin) ∉ t.cov := by
     unfold cutP at hcut
     simpa using hcut
-  obtain ⟨hrt, hrs⟩ := rankP_advance (c := pc.c) (L := pc.L) (t := t) (s := s) htok hsok hcy
-  obtain ⟨n, hn⟩ : ∃ n, lrP pc.c pc.L (advanceP .acyclic pc.L t s) = n + 1 :=
-    ⟨lrP pc.c pc.L (advanceP .acyclic pc.L t s) - 1, by omega⟩
+  obtain ⟨hrt, hrs⟩ := rankP_advance (c := pc.c) (L := pc.L) (t := t) (s := s) cs htok hsok hcy
+  obtain ⟨n, hn⟩ : ∃ n, lrP pc.c pc.L (advanceP cs .acyclic pc.L t s) = n + 1 :=
+    ⟨lrP pc.c pc.L (advanceP cs .acyclic pc.L t s) - 1, by omega⟩
   have hT : t.kids ∈ KB pc n := KB_mono ht.kid (by omega)
   have hS : s.kids ∈ KB pc n := by
     by_cases hp : t.item.origin = pc.L
@@ -73,11 +73,11 @@ theorem advanceP_psb {pc : PCfg} {t s : PSt} (ht : PSB pc t) (hcut : cutP .acycl
     · rw [if_neg hp] at hskid
       exact KB_atoms hskid n
   refine ⟨?_, ?_⟩
-  · have : (advanceP .acyclic pc.L t s).item = s.item.next := rfl
+  · have : (advanceP cs .acyclic pc.L t s).item = s.item.next := rfl
     rw [this]
     exact ok_next hsok hsym htok.2.2
   · rw [hn]
-    have hk : (advanceP .acyclic pc.L t s).kids =
+    have hk : (advanceP cs .acyclic pc.L t s).kids =
         if t.item.lhs.explicit then s.kids ++ [PT.node t.item.lhs a r t.kids] else s.kids ++ t.kids := by
       unfold advanceP
       simp only [hsym]
@@ -200,12 +200,20 @@ theorem stepB_inv {pc : PCfg} (hp : pc.c.policy = .acyclic) {pm pm' : PM} (hi : 
     · cases h
       exact ⟨hi.ph, hi.ch, by intro t' j' hh; cases hh⟩
     · rename_i s hsome
+      have hfr' : ∀ t' j', some (t, j + 1) = some (t', j') → PSB pc t' ∧ cutP .acyclic t' = false := by
+        intro t' j' hh
+        simp only [Option.some.injEq, Prod.mk.injEq] at hh
+        rw [← hh.1]; exact ⟨htps, htcut⟩
+      split at h
+      · -- `if s.cut_short: continue`
+        cases h
+        exact ⟨hi.ph, hi.ch, hfr'⟩
       cases h
       have hsmem : s ∈ listOf pm pc.L t := List.mem_of_getElem? hsome
       obtain ⟨hsok, hdot, hskid⟩ := listOf_mem hi.ch htps hsmem
-      have hnew := advanceP_psb htps htcut hsok hdot hskid
+      have hnew := advanceP_psb pc.cutShort htps htcut hsok hdot hskid
       rw [hp]
-      rcases addLast_cases .acyclic pm (advanceP .acyclic pc.L t s) with he | ⟨hnd, he | he⟩
+      rcases addLast_cases .acyclic pm (advanceP pc.cutShort .acyclic pc.L t s) with he | ⟨hnd, he | he⟩
       · rw [he]
         refine ⟨hi.ph, hi.ch, ?_⟩
         intro t' j' hh
